@@ -476,6 +476,7 @@ def doc_faults(rng, rule_doc, macro_files, rule_rel="rule.yaml", max_per_kind=6,
         bad_times = [
             ("negative:int", -1), ("negative:int", -3), ("negative:min", {"min": -1, "max": 2}), ("negative:max", {"min": 0, "max": -1}),
             ("negative:both", {"min": -2, "max": -1}), ("inverted", {"min": 3, "max": 1}), ("inverted", {"min": 2, "max": 0}),
+            ("inverted", {"min": 9, "max": 8}), ("inverted", {"min": 40, "max": 39}),
             ("negative:minonly", {"min": -2}), ("negative:maxonly", {"max": -1}), ("negative:min_maxnull", {"min": -3, "max": None}),
         ]
         for path, node in item_paths:
